@@ -309,7 +309,8 @@ def work(arg):
 
 # ---- second family: the root rule is abstract and may yield a plain Python value (no model object at all)
 PRIM_GRAMMAR = "Value: Node | INT | Word; Node: 'n' name=ID ('{' items*=Leaf '}')?; Leaf: 'l' name=ID; Word: /w\\d/;"
-PRIM_INPUTS = {"int": "5", "word": "w7", "object": "n a { l b }", "syntax": "n a {", "empty-object": "n a"}
+# 'word-tuple' / 'word-date': the match rule's processor turns the root value into an immutable value of another type (documented converter use)
+PRIM_INPUTS = {"int": "5", "word": "w7", "word-tuple": "w8", "word-date": "w9", "object": "n a { l b }", "syntax": "n a {", "empty-object": "n a"}
 
 
 def run_prim_history(kind, hist):
@@ -320,6 +321,9 @@ def run_prim_history(kind, hist):
     classes = (Node, Leaf)
     originals = {c: {m: c.__dict__.get(m) for m in DUNDERS} for c in classes}
     mm = metamodel_from_str(PRIM_GRAMMAR, classes=[Node, Leaf])
+    import datetime
+
+    mm.register_obj_processors({"Word": lambda x: (x,) if x == "w8" else datetime.date(2020, 1, 9) if x == "w9" else x})
     for i, op in enumerate(hist):
         try:
             m = mm.model_from_str(PRIM_INPUTS[op])
@@ -327,7 +331,7 @@ def run_prim_history(kind, hist):
         except Exception as e:
             outcome = type(e).__name__
         fp = fingerprint(classes, originals)
-        want = {"int": "loaded int", "word": "loaded str", "object": "loaded Node", "empty-object": "loaded Node", "syntax": "TextXSyntaxError"}[op]
+        want = {"int": "loaded int", "word": "loaded str", "word-tuple": "loaded tuple", "word-date": "loaded date", "object": "loaded Node", "empty-object": "loaded Node", "syntax": "TextXSyntaxError"}[op]
         bad = []
         if outcome != want:
             bad.append(("outcome", op, outcome))
